@@ -1076,7 +1076,7 @@ func textMutants(b []byte, format string, full bool) []Mutant {
 		}
 	}
 	// deep nesting / long tokens (bounded sizes)
-	for _, n := range []int{100, 10000} {
+	for _, n := range []int{100, 3000} {
 		add(fmt.Sprintf("nest%d", n), "prefix:'['", "", append(bytes.Repeat([]byte{'['}, n), b...))
 		add(fmt.Sprintf("nest%d", n), "prefix:'{'", "", append(bytes.Repeat([]byte("{a:"), n), b...))
 		add(fmt.Sprintf("nest%d", n), "prefix:'<'", "", append(bytes.Repeat([]byte("<["), n), b...))
